@@ -1060,7 +1060,7 @@ def run_sync(res, seed):
 def run(ctx):
     res = C.Result("C08")
     rng = C.rng_for(ctx["seed"], "c08")
-    n = C.Budget(ctx["tier"], 4000, 60000).n
+    n = C.Budget(ctx["tier"], 3000, 60000).n
     if ctx["widened"]:
         n *= 2
     res.rule = ("scenarios = 1-3 services (shared / unshared host names, v4/v6 mixes, custom TTLs) x queries (single and multi-question, QM/QU/legacy unicast; answered at once, "
